@@ -637,6 +637,8 @@ class ExprMixin:
                 return [(st, base.items[idx.obj])]
             except IndexError:
                 return self.raising(st, None, [(IndexError, TRUE)], node)[:-1]
+        if isinstance(base, PyC) and getattr(base.obj, "__module__", "") == "typing" and isinstance(idx, (PyC, PyList)):
+            return [(st, PyC(None))]      # a typing expression (Optional[T], ...): only ever passed to typing.cast
         if isinstance(base, PyC) and isinstance(base.obj, (dict, tuple, list)) and isinstance(idx, PyC):
             try:
                 return [(st, PyC(base.obj[idx.obj]))]
